@@ -22,7 +22,10 @@ Property oracles (on the implementation only, no model involved):
       user, cwd, pending rename, restart offset, transfer type, listener, data connection, workers);
   O4  the listener / data connection a session holds are its own (listener port = the port announced to it,
       data-connection peer = a socket that session's client opened);
-  O5  the backend instance of session i is only ever asked about paths inside dirs[i].
+  O5  the backend instance of session i is only ever asked about paths inside dirs[i];
+  O6  every command sent and completed in one step gets the same replies by the end of that step, at the same VIRTUAL
+      instants after the command, as in the solo run (nobody is delayed or blocked by a peer that stops reading its
+      control channel, by a session connecting, or - with per-connection speed limits - by another session's transfer).
 
 Correspondence with the extracted model (coq/Model/Multi.v):
   M0  the hypotheses of C17_isolation hold for the schedule (fn 1: solo footprints inside dirs[i], dirs
@@ -79,7 +82,7 @@ TRUSTED = [
 ASSUMPTIONS = [
     "each session sends one command at a time (ABOR excepted); different sessions are fully concurrent",
     "sessions work on disjoint pre-existing directories (the property's hypothesis, checked on every schedule by the model's run_in)",
-    "no connection limits, port pool large enough, no speed limits (shared by design: C10, C11, C15)",
+    "no connection limits, port pool large enough, no server-wide / per-user speed limits (shared by design: C10, C11, C15); per-connection limits are configured in one family",
 ]
 
 CRLF = b"\r\n"
@@ -284,26 +287,82 @@ class MSession(ftpsim.Session):
         self.my_ports = set()
         self.announced = set()
         self.cport = None
+        self.started = False
+        self.arrivals = []  # (virtual instant, number of bytes) of every chunk received on the control channel
+        self.rx_off = 0
+        self.limits = False  # speed limits configured: transfers take virtual time
+        self.wedged = None
 
     async def start(self):
-        g = await super().start()
+        """connect the control channel; every chunk of reply bytes is time-stamped (virtual clock) on arrival"""
+        self.raw = await simnet.Raw.connect(self.net, self.server.server_port)
+        self.started = True
+        loop = self.net.loop
+        feed = self.raw.reader.feed_data
+
+        def stamped(data):
+            self.arrivals.append((loop.time(), len(data)))
+            feed(data)
+
+        self.raw.reader.feed_data = stamped
         self.cport = self.raw.writer.transport.get_extra_info("sockname")[1]
         self.gate.port_idx[self.cport] = self.idx
-        self.lines.append("220")
-        return g
+        await self.net.settle()
+        ls = self.take(None)
+        if self.limits:
+            g = {"codes": simnet.final_codes(ls), "lines": list(ls), "times": []}
+            await self.await_final(g)
+            return g["codes"]
+        return simnet.final_codes(ls)
 
     def gone(self):
         return self.dropped or self.ended or self.raw.eof
 
+    async def await_final(self, rec, bound=30.0):
+        """speed limits configured: replies are written after throttle waits (timers) - let virtual time pass until
+        the reply is complete (last code not 1xx) or the session is over; arrival instants are stamped exactly"""
+        waited = 0.0
+        while waited < bound and not self.raw.eof and not (rec["codes"] and not rec["codes"][-1].startswith("1")):
+            await asyncio.sleep(0.05)
+            waited += 0.05
+            await self.net.settle()
+            self.take(rec)
+
+    async def await_final_or_mark(self, rec, bound=30.0):
+        """like await_final, but a 150 mark is enough to go on (the data phase follows)"""
+        waited = 0.0
+        while waited < bound and not self.raw.eof and not rec["codes"]:
+            await asyncio.sleep(0.05)
+            waited += 0.05
+            await self.net.settle()
+            self.take(rec)
+
+    def arrival_of(self, offset):
+        """virtual instant at which the control-channel byte with this stream offset (1-based end offset) arrived"""
+        tot = 0
+        for t, n in self.arrivals:
+            tot += n
+            if tot >= offset:
+                return t
+        return None
+
     def take(self, rec):
         ls = self.raw.take()
+        times = []
+        for l in ls:
+            self.rx_off += len(l.encode("utf-8", "replace")) + 2
+            times.append(self.arrival_of(self.rx_off))
         if rec is not None:
             rec["lines"] += ls
             rec["codes"] = simnet.final_codes(rec["lines"])
+            t0 = rec.get("t0")
+            rec["times"] += [None if (t is None or t0 is None) else round(t - t0, 6) for t in times]
         self.lines += [canon_line(l) for l in ls]
         return ls
 
     def xprobe(self):
+        if not self.started:
+            return None
         c = self.conn()
         if c is None:
             return None
@@ -336,14 +395,27 @@ class MSession(ftpsim.Session):
     # -- atoms
     async def do(self, atom):
         k = atom["k"]
+        if not self.started:
+            await self.start()  # "connect" atom, or the first use of a session that connects late
+            if k == "connect":
+                return
+        if k == "connect":
+            return
         if k == "cmd":
             if self.inflight is not None and self.inflight[1] is not None:
                 await self.side_cmd(atom)  # a command (ABOR) while the previous one is still in flight
             else:
                 await self.send(atom)
+                self.records[-1]["plain"] = True  # sent and completed in one step: its reply instants are the session's own
                 await self.collect()
+        elif k == "wedge":
+            await self.wedge(atom)
+        elif k == "unwedge":
+            await self.unwedge()
         elif k == "send":
             await self.send(atom)
+            if not atom.get("mode") and atom["verb"].lower() not in ("stor", "appe"):
+                self.records[-1]["plain"] = True  # nothing the harness does later influences when the replies come
         elif k == "collect":
             await self.collect()
         elif k == "conn":
@@ -354,9 +426,38 @@ class MSession(ftpsim.Session):
             raise ValueError(k)
 
     def new_record(self, verb, arg):
-        rec = {"verb": verb, "arg": arg, "codes": [], "lines": [], "bytes": None, "listing": None, "ended": False}
+        rec = {"verb": verb, "arg": arg, "codes": [], "lines": [], "bytes": None, "listing": None, "ended": False,
+               "t0": self.net.loop.time(), "times": [], "plain": False}
         self.records.append(rec)
         return rec
+
+    async def wedge(self, atom):
+        """the peer stops reading its CONTROL channel and pipelines commands until the replies no longer fit the
+        server's write buffer (the response writer of this session blocks in drain())"""
+        rec = self.new_record("<wedge>", str(atom.get("n", 0)))
+        if self.gone():
+            rec["ended"] = True
+            return
+        link = self.raw.writer.transport.peer.out  # server -> client direction of the control connection
+        link.hold = True
+        self.wedged = link
+        line = (atom.get("verb", "XQ") + (" " + atom["arg"] if atom.get("arg") else "")).encode("utf-8") + CRLF
+        for _ in range(int(atom.get("n", 1))):
+            self.raw.writer.write(line)
+        await self.net.settle()
+
+    async def unwedge(self):
+        rec = self.new_record("<unwedge>", "")
+        if self.wedged is not None:
+            self.wedged.release()
+            self.wedged = None
+        if self.dropped:
+            rec["ended"] = True
+            return
+        await self.net.settle()
+        self.take(rec)
+        self.ended = self.raw.eof or self.raw.reader.at_eof()
+        rec["ended"] = self.ended
 
     async def side_cmd(self, atom):
         rec = self.new_record(atom["verb"], atom.get("arg", ""))
@@ -449,6 +550,8 @@ class MSession(ftpsim.Session):
             self.gate.open(self.idx)
         await self.net.settle()
         self.take(rec)
+        if self.limits:
+            await self.await_final_or_mark(rec)
         payload = st["payload"]
         if v in ("stor", "appe") and (payload is not None or st.get("force_close")) and self.data and "150" in rec["codes"]:
             r, w = self.data[0]
@@ -458,9 +561,18 @@ class MSession(ftpsim.Session):
             await self.net.settle()
             self.take(rec)
         if rec["codes"] and rec["codes"][-1] == "150":
-            await asyncio.sleep(1.25)  # the worker waits for a data connection: let wait_future_timeout pass
-            await self.net.settle()
-            self.take(rec)
+            if self.limits:
+                # speed limits: the transfer takes virtual time; wait (in the same way in the solo run) until it is over
+                waited = 0.0
+                while rec["codes"][-1] == "150" and waited < 300 and not self.raw.eof:
+                    await asyncio.sleep(0.25)
+                    waited += 0.25
+                    await self.net.settle()
+                    self.take(rec)
+            else:
+                await asyncio.sleep(1.25)  # the worker waits for a data connection: let wait_future_timeout pass
+                await self.net.settle()
+                self.take(rec)
         port = ftpsim.parse_passive(rec["lines"])
         if port is not None:
             self.pasv_port = port
@@ -484,6 +596,8 @@ class MSession(ftpsim.Session):
                 w.close()
         await self.net.settle()
         self.take(rec)
+        if self.limits:
+            await self.await_final(rec)
         self.ended = self.raw.eof or self.raw.reader.at_eof()
         rec["ended"] = self.ended
 
@@ -556,7 +670,7 @@ def server_fingerprint(server):
 PROBE_KEYS = ("user", "has_user", "logged", "cwd", "rnfr", "rest", "passive", "data", "workers", "type", "lport", "dpeer", "acquired", "xoff", "pio_own", "ids")
 
 
-def run_impl(n, schedule, cfg):
+def run_impl(n, schedule, cfg, align=None):
     """n sessions, schedule = [(i, atom)].  Returns dict(sessions=[...], tree, steps=[probes of all sessions after each step], log)"""
     backend = cfg.get("backend", "memory")
     tmp = None
@@ -571,7 +685,13 @@ def run_impl(n, schedule, cfg):
             kw = {"wait_future_timeout": 1, "block_size": cfg.get("block_size", 64)}
             if cfg.get("data_ports"):
                 kw["data_ports"] = range(30000, 30000 + cfg["data_ports"])
+            lim = cfg.get("limits") or {}
+            if lim.get("server_pc"):
+                kw["read_speed_limit_per_connection"] = kw["write_speed_limit_per_connection"] = lim["server_pc"]
             server = ftpsim.make_server(USERS, TREE, backend, tmp, **kw)
+            if lim.get("user_pc"):
+                for u in server.user_manager.users:
+                    u.read_speed_limit_per_connection = u.write_speed_limit_per_connection = lim["user_pc"]
             base = {"memory": aioftp.MemoryPathIO, "path": aioftp.PathIO, "async": aioftp.AsyncPathIO}[backend]
             server.path_io_factory.factory = backend_factory(base, gate)
             if tmp:
@@ -580,15 +700,26 @@ def run_impl(n, schedule, cfg):
                 net.default_segmenter = lambda data, seg=int(cfg["seg"]): [data[x:x + seg] for x in range(0, len(data), seg)]
             await server.start("127.0.0.1", ftpsim.PORT)
             ss = []
+            late = {i for i in range(n) if next((a["k"] for j, a in schedule if j == i), None) == "connect"}
             for i in range(n):
                 s = MSession(net, server, i, gate)
-                g = await s.start()
-                assert g == ["220"], g
+                s.limits = bool(lim)
+                if i not in late:
+                    g = await s.start()
+                    assert g == ["220"], g
                 ss.append(s)
             steps = []
             writes = []
             fp = server_fingerprint(server)
+            starts = [[] for _ in range(n)]
             for i, atom in schedule:
+                if align is not None and len(starts[i]) < len(align) and align[len(starts[i])] > net.loop.time():
+                    # timed solo run: every step begins at the virtual instant it began in the interleaved run (how fast a
+                    # throttled command runs depends on how long the session was idle before: idleness is kept equal)
+                    fut = net.loop.create_future()
+                    net.loop.call_at(align[len(starts[i])], fut.set_result, None)
+                    await fut
+                starts[i].append(net.loop.time())
                 before = [s.xprobe() for s in ss]
                 await ss[i].do(atom)
                 steps.append((before, [s.xprobe() for s in ss]))
@@ -600,18 +731,25 @@ def run_impl(n, schedule, cfg):
                     fp = fp2
             # a schedule may end with commands in flight: finish them (same in the solo run)
             for s in ss:
+                if s.wedged is not None:
+                    await s.unwedge()
                 if s.inflight is not None:
                     await s.collect()
+            await net.settle()
+            for s in ss:
+                if s.started and not s.dropped:
+                    s.take(None)  # replies that came after the session's last step still belong to its transcript
             tree = ftpsim.final_tree(server, backend, tmp)
             own = [{"announced": sorted(s.announced), "ports": sorted(s.my_ports)} for s in ss]
             await server.close()
             out.update(
-                sessions=[{"lines": s.lines, "xfers": s.xfers, "records": s.records, "ended": s.gone()} for s in ss],
+                sessions=[{"lines": s.lines, "xfers": s.xfers, "records": s.records, "ended": (s.gone() if s.started else False)} for s in ss],
                 steps=steps,
                 own=own,
                 tree=tree,
                 log=list(gate.log),
                 writes=writes,
+                starts=starts,
             )
 
         with lowered_watermark():
@@ -663,6 +801,14 @@ def solo(script, d, cfg):
     return _solo_cache[key]
 
 
+def solos_for(n, dirs, schedule, cfg, res):
+    """the solo runs to compare with: cached per script - or, with speed limits, re-run with every step of the session
+    starting at the same virtual instant as in the interleaved run"""
+    if cfg.get("limits"):
+        return [run_impl(1, [(0, a) for a in project_atoms(schedule, i)], cfg, align=res["starts"][i]) for i in range(n)]
+    return [solo(project_atoms(schedule, i), dirs[i], cfg) for i in range(n)]
+
+
 def verbs_of(script):
     return [a.get("verb", a["k"]) for a in script]
 
@@ -671,8 +817,24 @@ def oracle(n, dirs, schedule, cfg, res, solos):
     """the property, evaluated on the implementation alone.  Returns list of (key, what, detail)"""
     bad = []
     canon_initial = ftpsim.canon_tree(TREE)
+    # O6 every command sent and completed in one step: the same replies at the same VIRTUAL instants (relative to the
+    # instant the command was sent) as in the solo run - nobody is delayed, let alone blocked, by what others do
+    if True:
+        for i in range(n):
+            mine, theirs = res["sessions"][i]["records"], solos[i]["sessions"][0]["records"]
+            for k, (a, b) in enumerate(zip(mine, theirs)):
+                if not (a["plain"] and b["plain"]):
+                    continue
+                if a["codes"] != b["codes"]:
+                    bad.append(("c17-reply-missing-or-different-at-its-step", f"session {i}: {a['verb']} {a['arg']} (its event #{k}) got {a['codes']} by the end of its step, solo {b['codes']}", {"session": i}))
+                    break
+                if a["times"] != b["times"]:
+                    bad.append(("c17-reply-instant-differs-from-solo", f"session {i}: replies to {a['verb']} {a['arg']} (its event #{k}) arrived {a['times']} s after the command, solo {b['times']}", {"session": i}))
+                    break
+            if bad:
+                break
     # O1 transcripts / data / backend calls
-    for i in range(n):
+    for i in (range(n) if not bad else ()):
         so = solos[i]["sessions"][0]
         me = res["sessions"][i]
         if me["lines"] != so["lines"]:
@@ -759,6 +921,8 @@ def model_events(schedule):
             out.append([i, [C, "", []]])
         elif k == "drop":
             out.append([i, []])
+        elif k == "wedge":
+            out += [[i, [a.get("verb", "XQ").lower(), a.get("arg", ""), []]] for _ in range(int(a.get("n", 1)))]
     return out
 
 
@@ -771,6 +935,10 @@ def self_interrupting(schedule, i):
     fly = False
     for j, a in schedule:
         if j != i:
+            continue
+        if a["k"] in ("wedge", "unwedge"):
+            return True  # pipelined commands: outside the one-command-at-a-time alignment of records
+        if a["k"] == "connect":
             continue
         if a["k"] == "collect":
             fly = False
@@ -1082,6 +1250,40 @@ def gen_jobs(rng, thorough, budget=None):
         j0 = rng.choice([0, len(LOGIN[lb]) + 1])
         s = window_schedule(sa, e, mode, sb, j0, len(sb), rng=None)
         jobs.append(("intruder-" + ib + ("-same-user" if same else "-other-user"), 2, [da, db], [project_atoms(s, 0), project_atoms(s, 1)], s, {"backend": "memory"}))
+    # (4) a WEDGED peer: it stops reading its control channel and pipelines commands until the replies no longer fit the
+    # server's write buffer; meanwhile the others run their scripts and a NEW session connects, logs in and works
+    for w in range(200 if thorough else (40 if budget else 26)):
+        three = rng.random() < 0.6
+        ds = rng.sample(DIRS, 3 if three else 2)
+        la = rng.choice(logins)
+        sa = script(la, rng.choice(bodies), ds[0])
+        cut = rng.choice([0, len(LOGIN[la]), rng.randrange(0, len(sa) + 1)])
+        wedge = {"k": "wedge", "n": rng.choice([8, 20, 40]), "verb": rng.choice(["XQ" + "x" * 120, "XQ" + "x" * 120, "NOOP" + "y" * 60, "PWD", "SYST"])}
+        others = []
+        for d in ds[1:]:
+            lb = la if rng.random() < 0.5 else rng.choice(logins)
+            others.append(script(lb, rng.choice(bodies), d))
+        if three or rng.random() < 0.5:
+            others[-1] = [{"k": "connect"}] + others[-1]  # connects while the first one is wedged
+        inside = merge_random(rng, [[]] + others)
+        k = rng.randrange(len(inside) // 2, len(inside) + 1)
+        s = [(0, a) for a in sa[:cut]] + [(0, wedge)] + inside[:k] + [(0, {"k": "unwedge"})]
+        s += merge_random(rng, [sa[cut:cut + 4], [a for i, a in inside[k:] if i == 1], [a for i, a in inside[k:] if i == 2]][: len(ds)])
+        jobs.append(("wedged-control-peer", len(ds), ds, [project_atoms(s, i) for i in range(len(ds))], s, {"backend": "memory"}))
+    # (5) per-connection speed limits (server-wide per connection, or of the user per connection): transfers take VIRTUAL time;
+    # sessions of the same / different users transfer at the same time - every reply comes at its solo instant
+    for w in range(160 if thorough else (36 if budget else 24)):
+        cfg = {"backend": "memory", "limits": rng.choice([{"user_pc": 400}, {"user_pc": 1000}, {"server_pc": 300}, {"user_pc": 500, "server_pc": 800}])}
+        nn = 3 if rng.random() < 0.25 else 2
+        ds = rng.sample(DIRS, nn)
+        la = rng.choice(["u", "v", "n", "anon"])
+        ls = [la] * nn if rng.random() < 0.7 else [rng.choice(["u", "v", "n"]) for _ in range(nn)]
+        ba = rng.choice(["store", "rest2", "append", "type", "rest"])
+        bs = [ba] * nn if rng.random() < 0.6 else [rng.choice(["store", "rest2", "append", "type", "rest", "nav"]) for _ in range(nn)]
+        scripts = [script(l, b, d) for l, b, d in zip(ls, bs, ds)]
+        r = rng.random()
+        s = burstify(merge_alternate(scripts)) if r < 0.5 else (burstify(merge_random(rng, scripts)) if r < 0.75 else merge_random(rng, scripts))
+        jobs.append(("speed-limits-" + ("same-user" if len(set(ls)) == 1 else "other-users"), nn, ds, scripts, s, cfg))
     # the victim itself is torn down half-way (its partial effects stay its own)
     for _ in range(300 if thorough else 24):
         ba, la, e, mode = rng.choice(wins)
@@ -1132,7 +1334,7 @@ def shrink(n, dirs, schedule, cfg, key, tries=120):
             cand = [x for k, x in enumerate(cur) if k not in unit]
             try:
                 res = run_impl(n, cand, cfg)
-                solos = [run_impl(1, [(0, a) for a in project_atoms(cand, i)], cfg) for i in range(n)]
+                solos = solos_for(n, dirs, cand, cfg, res)
                 bad = oracle(n, dirs, cand, cfg, res, solos)
             except Exception:
                 continue
@@ -1149,7 +1351,7 @@ def check_case(ctx, fam, n, dirs, schedule, cfg, mo=None, verbose=False):
     """run the interleaved schedule and the solo runs; oracles; model correspondence.  Returns True when clean."""
     scripts = [project_atoms(schedule, i) for i in range(n)]
     res = run_impl(n, schedule, cfg)
-    solos = [solo(scripts[i], dirs[i], cfg) for i in range(n)]
+    solos = solos_for(n, dirs, schedule, cfg, res)
     rep = {"family": fam, "n": n, "dirs": dirs, "cfg": cfg, "schedule": [[i, a] for i, a in schedule]}
     clean = True
     for name, i, verb in res["writes"]:
@@ -1174,7 +1376,7 @@ def check_case(ctx, fam, n, dirs, schedule, cfg, mo=None, verbose=False):
             small = shrink(n, dirs, schedule, cfg, key)
             if len(small) < len(schedule):
                 res2 = run_impl(n, small, cfg)
-                bad2 = oracle(n, dirs, small, cfg, res2, [run_impl(1, [(0, a) for a in project_atoms(small, i)], cfg) for i in range(n)])
+                bad2 = oracle(n, dirs, small, cfg, res2, solos_for(n, dirs, small, cfg, res2))
                 bad2 = [b for b in bad2 if not b[0].startswith("c17-mech-")]
                 if bad2 and bad2[0][0] == key:
                     rep = dict(rep, schedule=[[i, a] for i, a in small], shrunk_from=len(schedule))
@@ -1269,7 +1471,10 @@ def correspondence(ctx, budget=None):
         "lines; triples; (2) windows: a command of one session suspended half-way (data link held with a lowered high-water mark, upload "
         "split in two, n-th backend call gated) while the other runs a part or all of its script, is torn down / aborts / quits inside the "
         "window, or is itself suspended half-way; the suspended session itself torn down half-way. Memory backend mostly, PathIO / "
-        "AsyncPathIO on a subset, block sizes 8..256, optional port pool. Non-trivial = distinct (schedule, configuration)."
+        "AsyncPathIO on a subset, block sizes 8..256, optional port pool; (3) a peer that stops reading its CONTROL channel and pipelines "
+        "commands until its replies no longer fit the server's write buffer while the others work and a new session connects late; "
+        "(4) per-connection speed limits (of the user, of the server): same-user / other-user sessions transfer at the same time, every "
+        "reply instant on the virtual clock is compared with a time-aligned solo run. Non-trivial = distinct (schedule, configuration)."
     )
     jobs = gen_jobs(rng, thorough, budget)
     ctx.extra.setdefault("dynamic_writes", {})
@@ -1293,7 +1498,16 @@ def correspondence(ctx, budget=None):
             if a.get("mode"):
                 ctx.count("suspended:" + a["mode"] + (":" + a["marg"][0] if a["mode"] == "gate" else ""))
         mo = (model_out[off], model_out[off + 1], model_out[off + 2: off + ln])
-        ok = check_case(ctx, fam, n, dirs, sched, cfg, mo)
+        try:
+            ok = check_case(ctx, fam, n, dirs, sched, cfg, mo)
+        except Exception as e:
+            # the (changed) implementation broke the harness' expectations: an observation, never the end of the run
+            ok = False
+            import traceback
+            ctx.count("implementation_or_harness_exception")
+            if ctx.dist["implementation_or_harness_exception"] <= 3:
+                ctx.disagree("exception", {"family": fam, "n": n, "dirs": dirs, "cfg": cfg, "schedule": [[i, a] for i, a in sched], "key": "c17-exception"},
+                             "the schedule runs to its end", traceback.format_exc()[-600:])
         if ok and len(xcheck) < 12 and len(sched) < 14:
             xcheck.append((1, model_in[off][1], model_out[off]))
             xcheck.append((0, model_in[off + 1][1], model_out[off + 1]))
